@@ -392,6 +392,8 @@ def run_property(mod, tier, seed, only_sub=None, jobs=16):
     violations = []     # (sub, case, failure)
     harness_errors = []
     known_lines = []
+    if hasattr(mod, "prepare"):
+        mod.prepare(tier)           # e.g. reference results from fresh interpreters, computed once before forking
 
     # --- replay tier: committed regression inputs and known-finding witnesses
     rdir = replay_dir(pid)
@@ -546,6 +548,8 @@ def run_property(mod, tier, seed, only_sub=None, jobs=16):
 
 
 def run_replay(mod, path):
+    if hasattr(mod, "prepare"):
+        mod.prepare("quick")
     sub, case, fails = replay_file(mod, path)
     findings = Findings()
     known_sigs = {k["sig"] for k in findings.for_property(mod.ID)}
